@@ -496,6 +496,9 @@ def _is_sparse_x_integers(
         data = src[f'{layer_key}/data']
         if np.issubdtype(data.dtype, np.integer):
             return True
+        if data.shape[0] == 0:
+            # no stored value at all
+            return True
         chunk_size = data.chunks
 
         if chunk_size is None:
